@@ -391,6 +391,20 @@ class Ctx:
             json.dump(flaky, open(p, "w"), indent=1, default=str)
             raise Inconclusive("%d rejected trace(s) did not reproduce on re-execution (see %s)" % (len(flaky), p))
 
+    def devmatcher(self, module, cfg, table, base_consts=None, **kw):
+        """table: [(finding_id, {const: value})].  A rejected trace that the trace spec accepts once
+        exactly the named deviation is admitted IS an instance of that finding."""
+        def match(tr):
+            for fid, consts in table:
+                c = dict(base_consts or {})
+                c.update(consts)
+                t = {"id": tr.get("id"), "scenario": tr.get("scenario"), "events": tr["events"]}
+                if not self.validate(module, cfg, [t], consts=c, label="classification " + fid, **kw):
+                    self.cov["traces_validated_against_impl"] -= 1
+                    return fid
+            return None
+        return match
+
     def open_findings(self):
         return {k["id"]: k for k in self.known if k.get("status") == "open"}
 
